@@ -16,9 +16,25 @@ Flow of one run (class C01, machinery in atomic_conc.py / concprop.py):
  4. inside Coq: chk = trace_ok_fl (the trace is an execution of the model, every thread returned);
     chk_spec = Spec/SpecC01.spec_c01 on the call / return markers (read-subset, monotone reads, linearisation search);
  5. verdict as in concprop.ConcProp.run.
-Not covered here: counters reached as children of a CounterVec (the child is the same GenericCounter / Value / Atomic*
-cell; the vector's map is C10's harness object)."""
+Counter-vector children: `C vec <nl> | withinc <k> <d>, vcollect ...` scenarios (C10's harness object: one IntCounterVec, each
+call = with_label_values(k).inc_by(d) or collect) with racing FIRST requests of the same new label tuple (every thread is
+preempted between its read-unlock and its write-lock), distinct power-of-two increments and final collections; the trace is
+validated with C10's validator (Model/VecConc.vcheck) and judged by Spec/SpecC01.spec_c01_vec: every collection shows, per label
+tuple, all increments completed before it began plus a subset of the overlapping ones - so an increment made through a child that
+the vector dropped is a failing input.  The theorems relied on are C10's (re-exported in Props/C01.v as c01_vec_child_*).
+Tiny amounts: float local flushes also carry amounts far below f64::EPSILON (2^-80 .. 2^-56, 1e-17, subnormals k * 5e-324, and
+sums of several): the model's flush skips only when the amount == 0, and the spec decodes every finite float exactly."""
 from atomic_conc import *
+
+VEC_LETTERS = ["a", "b", "c"]
+
+
+def vkey(k):
+    return "%d %s" % (len(k), " ".join(hexs(x) for x in k))
+
+
+def vop_wire(op):
+    return "withinc %s %d" % (vkey(op[1]), op[2]) if op[0] == "withinc" else op[0]
 
 
 def pow2_pool(r, isf):
@@ -32,9 +48,21 @@ def pow2_pool(r, isf):
 class C01(AtomicProp):
     pid = "C01"
     obj = "ctr"
-    spec_def = ("Definition chk_spec (c : flavour * list event) : bool :=\n"
-                "  spec_c01 (match fst c with FlFloat => true | FlInt => false end) (snd c).")
-    rule = ("scenario = real Counter (f64) or IntCounter (u64), standalone or fed by local-counter flushes, 2-4 threads x 1-4 calls of "
+    imports = "Require Import PV.Model.AtomicConc PV.Spec.SpecC01.\nRequire PV.Model.VecConc."
+    # a case is a counter trace (flavour, events) or a vector trace (label names, threads, events)
+    case_type = "(flavour * list event) + (nat * nat * list event)"
+    chk_def = ("Definition chk (c : (flavour * list event) + (nat * nat * list event)) : bool :=\n"
+               "  match c with inl a => trace_ok_fl a | inr v => PV.Model.VecConc.vcheck (fst (fst v)) (snd (fst v)) (snd v) end.")
+    spec_def = ("Definition chk_spec (c : (flavour * list event) + (nat * nat * list event)) : bool :=\n"
+                "  match c with\n"
+                "  | inl a => spec_c01 (match fst a with FlFloat => true | FlInt => false end) (snd a)\n"
+                "  | inr v => spec_c01_vec (snd v)\n"
+                "  end.")
+    rule = ("16% counter-vector scenarios (real IntCounterVec, 2-3 threads whose first call is with_label_values(k0).inc_by(2^i) on the same new "
+            "label tuple, further increments / collections, every thread ends with a collection; 50% of them preempt every thread between its "
+            "read-unlock and its write-lock; validated by C10's vcheck, judged by spec_c01_vec); 10% tiny-amount scenarios (float local flushes of "
+            "amounts in 2^-80..2^-56, 1e-17, subnormals, sums of several); otherwise "
+            "scenario = real Counter (f64) or IntCounter (u64), standalone or fed by local-counter flushes, 2-4 threads x 1-4 calls of "
             "inc / inc_by / get / reset / local flush (increments = distinct powers of two; most programs end with a read), run one "
             "atomic step at a time under a generated complete schedule: ~40% forced preemption right after each load of the float loop with "
             "another thread writing inside the window, else uniform / bursty / priority schedules, spurious compare-exchange failures, "
@@ -46,7 +74,9 @@ class C01(AtomicProp):
                    "of atomic steps); memory orderings are recorded, not constrained",
                    "NaN payloads are canonicalised (Coq has one NaN); counters cannot hold NaN when fed with the documented non-negative amounts",
                    "c01_monotone: no wrap-around (u64) / non-negative non-NaN increments (f64) - the documented precondition of inc_by (debug_assert)",
-                   "children of CounterVec reach the same GenericCounter -> Value -> AtomicF64 / AtomicU64 code (by inspection; vector scenarios are C10's)",
+                   "counter-vector children: the statements relied on are C10's theorems about C10's vector model (re-exported as c01_vec_child_*); the scenarios "
+                   "use IntCounterVec (the harness object); a float CounterVec child is the same MetricVec code around the AtomicF64 cell covered standalone",
+                   "check (A) of the spec needs exact binary64 sums: applied when all amounts of a trace fit one 53-bit window (the generator's pools), skipped otherwise",
                    "sync shim, scheduler and harness are tested code, not verified; the shim replaces compare_exchange_weak by compare_exchange plus "
                    "scheduler-chosen spurious failures"]
 
@@ -59,6 +89,9 @@ class C01(AtomicProp):
             self.scenario(True, [[("incbyf", 2.0), ("get",)], [("lflushf", [1.0, 4.0])], [("reset",)]],
                           "0 1 2 0 1 1 1 0 0 0 0 2 2 0 0 0", "corpus-window"),
             self.scenario(False, [[("incbyu", 2), ("get",)], [("lflushu", [1, 4]), ("lflushu", [])]], "0 1 1 0 1 0 1 1 0 0 0", "corpus-window"),
+            # a local amount far below f64::EPSILON is still flushed; a subnormal one too
+            self.scenario(True, [[("lflushf", [1e-17]), ("get",)], [("get",)]], "0 0 0 0 1 1 1 0 0 0", "corpus-tiny"),
+            self.scenario(True, [[("lflushf", [5e-324, 1e-323]), ("get",)], [("lflushf", [2e-323]), ("get",)]], "0 1 0 1 1 0 0 0 1 1 0 0 0 1 1 1", "corpus-tiny"),
         ]
 
     # ---- programs
@@ -87,6 +120,7 @@ class C01(AtomicProp):
                         if pool:
                             e = pool.pop(); vals.append(2.0 ** e if isf else 1 << e)
                     if m and r.random() < 0.1: vals = [0.0 if isf else 0] * m          # increments of zero: the flush must be a no-op
+                    if isf and vals and r.random() < 0.08: vals = [r.choice([1e-17, 2.0 ** -60, 5e-324])]   # far below f64::EPSILON, not zero
                     p.append(("lflushf", vals) if isf else ("lflushu", vals))
                 elif use_reset:
                     p.append(("reset",))
@@ -97,7 +131,91 @@ class C01(AtomicProp):
             progs.append(p)
         return progs
 
+    # ---- amounts far below f64::EPSILON in local flushes (a flush is a no-op only when the amount == 0)
+    def tiny_programs(self, r):
+        n = r.choice([2, 2, 3])
+        fam = r.choice(["pow2", "pow2", "subnormal", "single"])
+        if fam == "pow2": pool = [2.0 ** -e for e in range(56, 81)]
+        elif fam == "subnormal": pool = [5e-324 * (1 << k) for k in range(0, 21)]
+        else: pool = [r.choice([1e-17, 3e-17, 2.2e-16, 1.1e-16, 5e-324, 2.0 ** -60])]
+        r.shuffle(pool)
+        progs = []
+        for t in range(n):
+            p = []
+            for _ in range(r.randint(1, 3)):
+                k = r.random()
+                if k < 0.6 and pool:
+                    vals = [pool.pop() for _ in range(min(len(pool), r.choice([1, 1, 2, 3])))]
+                    p.append(("lflushf", vals))
+                elif k < 0.7 and pool and fam != "single":
+                    p.append(("incbyf", pool.pop()))
+                elif k < 0.8:
+                    p.append(("lflushf", [0.0] * r.randint(0, 2)))
+                else:
+                    p.append(("get",))
+            if p[-1] != ("get",): p.append(("get",))
+            progs.append(p)
+        return progs
+
+    def tiny_scenario(self, r):
+        progs = self.tiny_programs(r)
+        style = r.choice(STYLES)
+        return self.scenario(True, progs, make_schedule(r, True, progs, style), "tiny-" + style)
+
+    # ---- counters reached through a counter vector
+    def vec_scenario(self, r):
+        nl = r.choice([1, 1, 2]); nth = r.choice([2, 2, 3])
+        keys = [[x] for x in VEC_LETTERS] if nl == 1 else [[x, y] for x in VEC_LETTERS[:2] for y in VEC_LETTERS[:2]]
+        r.shuffle(keys); keys = keys[:r.choice([1, 2, 2, 3])]
+        d = [0]
+
+        def nxt():
+            d[0] += 1; return 1 << (d[0] - 1)
+        k0 = keys[0]
+        progs = []
+        for t in range(nth):
+            p = [("withinc", k0, nxt())]                     # racing first requests of the same new label tuple
+            for _ in range(r.randint(0, 2)):
+                p.append(("withinc", r.choice(keys), nxt()) if r.random() < 0.7 else ("vcollect",))
+            p = p[:3] + [("vcollect",)]
+            progs.append(p)
+        order = list(range(nth)); r.shuffle(order)
+        style = r.choice(["race", "race", "race", "uniform", "bursty", "pct"])
+        total = sum(8 for p in progs for o in p) + 8
+        if style == "race":
+            # call marker, read-lock, read-unlock, then preempted: every creator has missed before the first write lock
+            sched = [t for t in order for _ in range(3)]
+            if r.random() < 0.5: sched += [t for t in order for _ in range(5)]
+            sched += [r.randrange(nth) for _ in range(total)]
+            sched = " ".join(map(str, sched))
+        else:
+            sched = gen_schedule(r, nth, total, style).replace("s", "")
+        line = "C vec %d | %s | S %s" % (nl, " | ".join(", ".join(vop_wire(o) for o in p) for p in progs), sched)
+        return dict(line=line, isf=False, vec=True, nl=nl, nthreads=nth, kind="vec-" + style, ncalls=sum(len(p) for p in progs))
+
+    def case_term(self, sc, out):
+        if sc.get("vec"):
+            return "inr (%d%%nat, %d%%nat, %s)" % (sc["nl"], sc["nthreads"], out)
+        return "inl (%s, %s)" % ("FlFloat" if sc["isf"] else "FlInt", out)
+
+    def explain(self, case):
+        path = os.path.join(BUILD, "cases", self.pid + "_explain.v")
+        os.makedirs(os.path.dirname(path), exist_ok=True)
+        with open(path, "w") as fh:
+            fh.write(CONC_HDR % self.imports)
+            fh.write("Definition c : %s := %s.\n" % (self.case_type, case))
+            fh.write("Eval vm_compute in match c with\n"
+                     "  | inl a => (first_reject a, nth_error (snd a) (match first_reject a with Some i => N.to_nat i | None => 0%nat end))\n"
+                     "  | inr v => let r := fst (validate PV.Model.VecConc.vexec (PV.Model.VecConc.vinit (fst (fst v))) 0 (snd v)) in\n"
+                     "             (r, nth_error (snd v) (match r with Some i => N.to_nat i | None => 0%nat end))\n"
+                     "  end.\n")
+        rc, out = sh(["timeout", "120", "coqc", "-noglob", "-Q", COQ, "PV", path])
+        return out.strip()[-600:]
+
     def random_scenario(self, r):
+        x = r.random()
+        if x < 0.16: return self.vec_scenario(r)
+        if x < 0.26: return self.tiny_scenario(r)
         isf = r.random() < 0.6
         progs = self.programs(r, isf)
         style = r.choice(STYLES if isf else ["uniform", "bursty", "pct", "rounds", "rounds", "uniform"])
